@@ -299,7 +299,7 @@ func runPlz(plz, dir string, threads int, args ...string) (string, string, int) 
 
 func main() {
 	lib.Main("C07", func(c *lib.Ctx) {
-		c.Model("From PlzV Require Import Model.C08 Model.C08_Tie.", "C08.case", "C08_Tie.check")
+		c.Model("From PlzV Require Import Model.C08 Model.C07_Src Model.C07_Tie.", "C07_Tie.case", "C07_Tie.check")
 		c.Rule("in-process: random recipes with 0-5 dependencies and up to ten map-valued attributes of 0-5 entries; each performed once as generated and " +
 			"3 (thorough: 6) more times with every map's insertion order, the order of the AddDependency calls and their position relative to the sources shuffled; " +
 			"all real build.RuleHash values (rule hash and runtime hash) must be equal, equal to sha1 of the interpreted stream, and the Coq `ser prog` of both " +
@@ -335,7 +335,7 @@ func main() {
 							js["tie"] = "sha1(interpreted stream) != build.RuleHash"
 							st = []byte("TIE BROKEN: sha1(interpreted stream) != build.RuleHash " + hex.EncodeToString(h0))
 						}
-						c.Case(lib.App("CPerm", lib.Bool(rt), t0.Coq(), t1.Coq(), rh.Str(string(st))), js, t0.Coq()+"|"+t1.Coq(), nontrivial(t0) && t0.Coq() != t1.Coq())
+						c.Case(lib.App("Rule", lib.App("CPerm", lib.Bool(rt), t0.Coq(), t1.Coq(), rh.Str(string(st)))), js, t0.Coq()+"|"+t1.Coq(), nontrivial(t0) && t0.Coq() != t1.Coq())
 					} else {
 						c.Eval(js, t0.Coq()+"|"+t1.Coq()+fmt.Sprint(rt), nontrivial(t0) && t0.Coq() != t1.Coq())
 					}
@@ -352,6 +352,9 @@ func main() {
 				}())
 			}
 		}
+
+		// ---- the source hash on real graphs (src.go)
+		runSourceHash(c)
 
 		// ---- end to end
 		plz := os.Getenv("VERIF_PLZ")
@@ -420,7 +423,80 @@ func main() {
 			}
 			c.HistN("e2e_targets", len(rs.Lbls))
 		}
+
+		// ---- the two fixed witnesses of map-order insertion of dict-valued srcs (see witnessRepos): repeated invocations on one tree
+		for wi, wr := range witnessRepos() {
+			dir := filepath.Join(base, fmt.Sprintf("w%d", wi))
+			wr.Files[".plzconfig"] = "[build]\npath = /usr/local/bin:/usr/bin:/bin\n[cache]\ndir = " + filepath.Join(base, fmt.Sprintf("wcache%d", wi)) + "\n[display]\nupdatetitle = false\n"
+			for f, content := range wr.Files {
+				p := filepath.Join(dir, f)
+				if err := os.MkdirAll(filepath.Dir(p), 0o755); err != nil {
+					panic(err)
+				}
+				if err := os.WriteFile(p, []byte(content), 0o644); err != nil {
+					panic(err)
+				}
+			}
+			first := ""
+			runs := c.Scale(5, 12)
+			for k := 0; k < runs; k++ {
+				so, se, rc := runPlz(plz, dir, []int{4, 1, 16}[k%3], "hash", "--detailed", wr.Label)
+				js := map[string]any{"witness": wr, "run": k}
+				c.Oracle()
+				c.Eval(js, fmt.Sprintf("witness%d-%d", wi, k), true)
+				if rc != 0 {
+					c.Fail("plz-hash-failed", fmt.Sprintf("plz hash --detailed %s exited %d: %s", wr.Label, rc, lastLines(se, 5)), js)
+					break
+				}
+				src := strings.Join(sourceLines.FindAllString(so, -1), "")
+				if src == "" {
+					c.Fail("plz-hash-report-incomplete", "no Source: line in the report of "+wr.Label, js)
+					break
+				}
+				if k == 0 {
+					first = src
+				} else if src != first {
+					js["first"], js["this"] = first, src
+					c.Fail(wr.Class, fmt.Sprintf("`plz hash --detailed %s` printed different source hashes on an identical tree (run 0 vs run %d): %s", wr.Label, k, firstDiff(first, src)), js)
+					break
+				}
+			}
+			c.Hist("e2e_witness", wr.Class)
+		}
 	})
+}
+
+var sourceLines = regexp.MustCompile(`(?m)^ *Source: [^\n]*\n`)
+
+type witnessRepo struct {
+	Class string            `json:"class"`
+	Label string            `json:"label"`
+	Files map[string]string `json:"files"`
+}
+
+// witnessRepos: the two ways in which the order of a dict-valued `srcs` reached the source hash of a dependent target while asp
+// added the groups in Go map order (fixed in /repo; kept so that a return of map-order insertion is reported). 8 groups: a Go map
+// of 8 entries is walked from a random offset, so two walks agree with probability 1/8.
+func witnessRepos() []witnessRepo {
+	const k = 8
+	var a, b strings.Builder
+	srcsA, expA, srcsB := []string{}, []string{}, []string{}
+	for i := 0; i < k; i++ {
+		fmt.Fprintf(&a, "genrule(name = \"x%d\", outs = [\"x%d.out\"], cmd = \"echo x%d > $OUT\")\n", i, i, i)
+		srcsA = append(srcsA, fmt.Sprintf("\"g%d\": [\":x%d\"]", i, i))
+		expA = append(expA, fmt.Sprintf("\":x%d\"", i))
+		fmt.Fprintf(&b, "genrule(name = \"r%d\", outs = [\"r%d.out\"], cmd = \"echo r%d > $OUT\")\n", i, i, i)
+		fmt.Fprintf(&b, "genrule(name = \"x%d\", outs = [\"x%d.out\"], cmd = \"echo x%d > $OUT\", binary = True, runtime_deps = [\":r%d\"])\n", i, i, i, i)
+		srcsB = append(srcsB, fmt.Sprintf("\"g%d\": [\":x%d\"]", i, i))
+	}
+	fmt.Fprintf(&a, "genrule(name = \"d\", srcs = {%s}, outs = [\"d.out\"], cmd = \"touch $OUT\", exported_deps = [%s])\n", strings.Join(srcsA, ", "), strings.Join(expA, ", "))
+	a.WriteString("genrule(name = \"t\", outs = [\"t.out\"], cmd = \"echo t > $OUT\", deps = [\":d\"])\n")
+	fmt.Fprintf(&b, "build_rule(name = \"f\", srcs = {%s}, outs = [\"f.out\"], cmd = \"touch $OUT\", runtime_deps_from_srcs = True)\n", strings.Join(srcsB, ", "))
+	b.WriteString("genrule(name = \"t\", outs = [\"t.out\"], cmd = \"echo t > $OUT\", deps = [\":f\"])\n")
+	return []witnessRepo{
+		{Class: "source-hash-exported-deps-in-dict-order", Label: "//p:t", Files: map[string]string{"p/BUILD": a.String()}},
+		{Class: "source-hash-runtime-deps-from-srcs-in-dict-order", Label: "//q:t", Files: map[string]string{"q/BUILD": b.String()}},
+	}
 }
 
 func lastLines(x string, n int) string {
